@@ -215,3 +215,145 @@ Theorem C18_dests_names_sorted_bytewise (l : list name) :
   Sorted (fun a b => lex_leb (written a) (written b) = true) (sort_names l).
 Proof. exact (dests_names_sorted_bytewise l). Qed.
 Print Assumptions C18_dests_names_sorted_bytewise.
+
+(* ---- 8. source: the functions below are REGENERATED from /repo's working tree on every run (tools/py2coq.py ->
+   gen/GenAnchors.v, gen/GenMatrix.v, gen/GenPdfPage.v) and run by the interpreter base/Py.v; calls are linked to the
+   callee's own regenerated body (PyLink.linked table depth).  GA.T = GenAnchors_table ++ GenMatrix_table;
+   GA.vmat a b p c d q e f r = the 3x3 matrix [[a,b,p],[c,d,q],[e,f,r]] as a value (Matrix(a,b,c,d,e,f) has p q r =
+   0 0 1); GA.vrect = a 4-tuple of numbers as a value; GA.rect_eq = componentwise ==.
+   So sections 5's theorems are theorems about weasyprint/anchors.py + weasyprint/matrix.py, and the placement of
+   links on the page (CSS px -> PDF points, independent of the bleed) is proved of weasyprint/pdf/__init__.py. *)
+From Coq Require Import String.
+Require WV.base.Py WV.base.PyLink WV.gen.GenAnchors WV.gen.GenMatrix WV.gen.GenPdfPage.
+Require WV.model.C18PageMatrix WV.proofs.C18_gen_aabb WV.proofs.C18_gen_page_matrix.
+Module GA := WV.proofs.C18_gen_aabb.
+Module GP := WV.proofs.C18_gen_page_matrix.
+Module PM := WV.model.C18PageMatrix.
+Open Scope Q_scope.
+
+(* Matrix.transform_point (through Matrix(matrix=[[x, y, 1]]) @ self, i.e. __matmul__ and the constructor): the
+   model's transform_point, for every 3x3 matrix of numbers *)
+Theorem C18_source_transform_point n a b p c d q e f r x y :
+  exists u v, Py.ocall (PyLink.linked GA.T (S (S (S n)))) ".transform_point"%string
+                [GA.vmat a b p c d q e f r; Py.VNum x; Py.VNum y] = Py.VList [Py.VNum u; Py.VNum v] /\
+              u == fst (transform_point (a, b, c, d, e, f) x y) /\ v == snd (transform_point (a, b, c, d, e, f) x y).
+Proof. exact (GA.gen_transform_point n a b p c d q e f r x y). Qed.
+Print Assumptions C18_source_transform_point.
+
+(* rectangle_aabb with a matrix: the model's rectangle_aabb (numbers up to ==), never raising *)
+Theorem C18_source_rectangle_aabb n a b p c d q e f r x y w h :
+  Py.run (PyLink.linked GA.T (S (S (S (S n))))) GenAnchors.rectangle_aabb_body
+      [("matrix"%string, GA.vmat a b p c d q e f r); ("pos_x"%string, Py.VNum x); ("pos_y"%string, Py.VNum y);
+       ("width"%string, Py.VNum w); ("height"%string, Py.VNum h)]
+      (fun _ res => exists o, res = Some (GA.vrect o) /\ GA.rect_eq o (rectangle_aabb (Some (a, b, c, d, e, f)) x y w h))
+      (fun _ => False).
+Proof. exact (GA.gen_rectangle_aabb_linked n a b p c d q e f r x y w h). Qed.
+Print Assumptions C18_source_rectangle_aabb.
+
+(* rectangle_aabb without a matrix (None, or an empty one: `if not matrix`): the rectangle itself *)
+Theorem C18_source_rectangle_aabb_no_matrix n (mv : Py.val) x y w h :
+  mv = Py.VNone \/ mv = Py.VList nil ->
+  Py.run (PyLink.linked GA.T n) GenAnchors.rectangle_aabb_body
+      [("matrix"%string, mv); ("pos_x"%string, Py.VNum x); ("pos_y"%string, Py.VNum y);
+       ("width"%string, Py.VNum w); ("height"%string, Py.VNum h)]
+      (fun _ res => res = Some (GA.vrect (rectangle_aabb None x y w h))) (fun _ => False).
+Proof. exact (GA.gen_rectangle_aabb_no_matrix n mv x y w h). Qed.
+Print Assumptions C18_source_rectangle_aabb_no_matrix.
+
+(* the rectangle computed by the source covers the image of every point of the link's box ... *)
+Theorem C18_source_link_rectangle_covers_transformed_box n a b p c d q e f r x y w h :
+  Py.run (PyLink.linked GA.T (S (S (S (S n))))) GenAnchors.rectangle_aabb_body
+      [("matrix"%string, GA.vmat a b p c d q e f r); ("pos_x"%string, Py.VNum x); ("pos_y"%string, Py.VNum y);
+       ("width"%string, Py.VNum w); ("height"%string, Py.VNum h)]
+      (fun _ res => exists o, res = Some (GA.vrect o) /\
+         forall s t, 0 <= s <= 1 -> 0 <= t <= 1 ->
+           in_rect o (transform_point (a, b, c, d, e, f) (x + s * w) (y + t * h)))
+      (fun _ => False).
+Proof. exact (GA.source_rectangle_covers n a b p c d q e f r x y w h). Qed.
+Print Assumptions C18_source_link_rectangle_covers_transformed_box.
+
+(* ... and is the smallest axis-aligned rectangle that does *)
+Theorem C18_source_link_rectangle_is_smallest n a b p c d q e f r x y w h bx1 by1 bx2 by2 :
+  (forall s t, 0 <= s <= 1 -> 0 <= t <= 1 ->
+     in_rect (bx1, by1, bx2, by2) (transform_point (a, b, c, d, e, f) (x + s * w) (y + t * h))) ->
+  Py.run (PyLink.linked GA.T (S (S (S (S n))))) GenAnchors.rectangle_aabb_body
+      [("matrix"%string, GA.vmat a b p c d q e f r); ("pos_x"%string, Py.VNum x); ("pos_y"%string, Py.VNum y);
+       ("width"%string, Py.VNum w); ("height"%string, Py.VNum h)]
+      (fun _ res => exists o1 o2 o3 o4, res = Some (GA.vrect (o1, o2, o3, o4)) /\
+         bx1 <= o1 /\ by1 <= o2 /\ o3 <= bx2 /\ o4 <= by2)
+      (fun _ => False).
+Proof. exact (GA.source_rectangle_smallest n a b p c d q e f r x y w h bx1 by1 bx2 by2). Qed.
+Print Assumptions C18_source_link_rectangle_is_smallest.
+
+(* generate_pdf, per page: `matrix = Matrix(scale, 0, 0, -scale, 0, page.height * scale)` ... `page_rectangle = ...`.
+   GP.vpage pw ph bl bt br bb rest = a page of width pw, height ph, bleed {left: bl, top: bt, right: br, bottom: bb};
+   GP.vpage_matrix s ph = GA.vmat s 0 0 0 (0 - s) 0 0 (ph * s) 1.  For every scale, page and bleed the statements
+   bind matrix to that value (the local page_height, which includes the bleed, is not in it), left / top / right /
+   bottom to the model's MediaBox and page_rectangle to the model's; they raise only for scale = 0 *)
+Theorem C18_source_page_geometry n s pw ph bl bt br bb rest :
+  Py.run (PyLink.linked GA.T (S n)) GenPdfPage.page_geometry_body
+      [("scale"%string, Py.VNum s); ("page"%string, GP.vpage pw ph bl bt br bb rest)]
+      (fun rho res =>
+         res = None /\
+         Py.lookup "matrix" rho = GP.vpage_matrix s ph /\
+         exists l t r b,
+           Py.lookup "left" rho = Py.VNum l /\ Py.lookup "top" rho = Py.VNum t /\ Py.lookup "right" rho = Py.VNum r /\
+           Py.lookup "bottom" rho = Py.VNum b /\ GA.rect_eq (l, t, r, b) (PM.media_box s pw ph bl bt br bb) /\
+           exists pr, Py.lookup "page_rectangle" rho = GA.vrect pr /\
+                      GA.rect_eq pr (PM.page_rectangle s pw ph bl bt br bb))
+      (fun m => m = "ZeroDivisionError"%string /\ s == 0).
+Proof. exact (GP.gen_page_geometry n s pw ph bl bt br bb rest). Qed.
+Print Assumptions C18_source_page_geometry.
+
+(* a CSS point (x, y) of the page box goes, through the regenerated transform_point applied to the matrix of the
+   page, to (x * scale, (page.height - y) * scale): independent of the bleed *)
+Theorem C18_source_page_point_to_pdf n s ph x y :
+  exists u v, Py.ocall (PyLink.linked GA.T (S (S (S n)))) ".transform_point"%string
+                [GP.vpage_matrix s ph; Py.VNum x; Py.VNum y] = Py.VList [Py.VNum u; Py.VNum v] /\
+              u == x * s /\ v == (ph - y) * s.
+Proof. exact (GP.source_page_point n s ph x y). Qed.
+Print Assumptions C18_source_page_point_to_pdf.
+
+(* a link box (x, y, w, h) of the page goes, through the regenerated rectangle_aabb with the matrix of the page, to
+   the rectangle spanned by the images of its corners *)
+Theorem C18_source_page_link_rectangle n s ph x y w h :
+  0 <= s -> 0 <= w -> 0 <= h ->
+  Py.run (PyLink.linked GA.T (S (S (S (S n))))) GenAnchors.rectangle_aabb_body
+      [("matrix"%string, GP.vpage_matrix s ph); ("pos_x"%string, Py.VNum x); ("pos_y"%string, Py.VNum y);
+       ("width"%string, Py.VNum w); ("height"%string, Py.VNum h)]
+      (fun _ res => exists o, res = Some (GA.vrect o) /\
+                    GA.rect_eq o (x * s, (ph - (y + h)) * s, (x + w) * s, (ph - y) * s))
+      (fun _ => False).
+Proof. exact (GP.source_page_link_rectangle n s ph x y w h). Qed.
+Print Assumptions C18_source_page_link_rectangle.
+
+(* the TrimBox statements `trim_left = left + bleed['left']` ... : the MediaBox inset by the bleed dict *)
+Theorem C18_source_trim_box_is_media_box_inset_by_bleed O (HO : Py.ops_ok O) L Tp R B l t r b :
+  Py.run O GenPdfPage.page_trim_body
+      [("left"%string, Py.VNum L); ("top"%string, Py.VNum Tp); ("right"%string, Py.VNum R); ("bottom"%string, Py.VNum B);
+       ("bleed"%string, GP.vbleed l t r b)]
+      (fun rho res => res = None /\
+         Py.VList [Py.lookup "trim_left" rho; Py.lookup "trim_top" rho; Py.lookup "trim_right" rho;
+                   Py.lookup "trim_bottom" rho] = GA.vrect (PM.trim_box (L, Tp, R, B) l t r b))
+      (fun _ => False).
+Proof. exact (GP.gen_page_trim O HO L Tp R B l t r b). Qed.
+Print Assumptions C18_source_trim_box_is_media_box_inset_by_bleed.
+
+(* on the model: the MediaBox is the page box grown by the bleed, the TrimBox (bleed at scale) is the page box, and
+   the corners of the page box go to the corners of the TrimBox *)
+Theorem C18_media_box_is_page_plus_bleed s pw ph bl bt br bb :
+  GA.rect_eq (PM.media_box s pw ph bl bt br bb) (- (bl * s), - (bt * s), (pw + br) * s, (ph + bb) * s).
+Proof. exact (GP.media_box_is_page_plus_bleed s pw ph bl bt br bb). Qed.
+Print Assumptions C18_media_box_is_page_plus_bleed.
+
+Theorem C18_trim_box_is_page_box s pw ph bl bt br bb :
+  GA.rect_eq (PM.trim_box (PM.media_box s pw ph bl bt br bb) (bl * s) (bt * s) (br * s) (bb * s)) (0, 0, pw * s, ph * s).
+Proof. exact (GP.trim_box_is_page_box s pw ph bl bt br bb). Qed.
+Print Assumptions C18_trim_box_is_page_box.
+
+Theorem C18_page_corners_go_to_trim_box s pw ph bl bt br bb :
+  let '(t1, t2, t3, t4) := PM.trim_box (PM.media_box s pw ph bl bt br bb) (bl * s) (bt * s) (br * s) (bb * s) in
+  fst (PM.css_to_pdf s ph 0 ph) == t1 /\ snd (PM.css_to_pdf s ph 0 ph) == t2 /\
+  fst (PM.css_to_pdf s ph pw 0) == t3 /\ snd (PM.css_to_pdf s ph pw 0) == t4.
+Proof. exact (GP.page_corners_go_to_trim_box s pw ph bl bt br bb). Qed.
+Print Assumptions C18_page_corners_go_to_trim_box.
